@@ -248,6 +248,18 @@ func nestSets() []*Set {
 	t.addMap("named", 3, tString, kindSpec{t: tMessage, name: t.full})
 	t.add(field("label", 4, kindSpec{t: tBytes}))
 	f.msg(t)
+	// nested messages sharing a short name under different parents
+	for _, pn := range []string{"Alpha", "Beta", "Gamma"} {
+		pm := newMsg("."+pkg, pn)
+		in := newMsg(pm.full, "Inner")
+		in.add(field("v_"+strings.ToLower(pn), 1, kindSpec{t: tString}))
+		in.add(repeated(field("nums", 2, kindSpec{t: tSint64})))
+		in.nestEnum(enum("Kind", strings.ToUpper(pn)+"_KIND_ZERO", 0, strings.ToUpper(pn)+"_KIND_ONE", 1))
+		pm.nest(in)
+		pm.add(field("inner", 1, kindSpec{t: tMessage, name: in.full}))
+		pm.add(field("kind", 2, kindSpec{t: tEnum, name: in.full + ".Kind"}))
+		f.msg(pm)
+	}
 	// message without fields, message with only a nested enum
 	f.msg(newMsg("."+pkg, "Empty"))
 	h := newMsg("."+pkg, "HasEmpty")
